@@ -146,6 +146,27 @@ CHECKS["C17"] = dict(
     level_text="Bounded symbolic execution of the real checkers with a capturing testing.TB: 'fails iff the wanted item is absent' is decided for all symbolic ids/keys/instances/options.",
     level_note="Trusted: go/ssa, gosym (cmp/protocmp/proto.Clone stubs), z3.")
 
+def _c18(h, b, tier):
+    d = dict(pkg="fluent", harness=h, reach=["end"], bounds=b)
+    d["thorough" if tier == "quick" else "quick"] = dict(skip=True)
+    return d
+CHECKS["C18"] = dict(
+    runs=[_c18("VfC18_ipv4_2", "every program of 2 builder calls (6 methods, symbolic arguments) + 1 later call, IPv4 builder", "quick"),
+          _c18("VfC18_ipv6_2", "as ipv4_2, IPv6 builder", "quick"),
+          _c18("VfC18_label_2", "every program of 2 calls (5 methods, popped stacks of 0-2 labels) + 1 later call, MPLS builder", "quick"),
+          _c18("VfC18_nhg_2", "every program of 2 calls (5 methods) + 1 later call, next-hop-group builder", "quick"),
+          _c18("VfC18_nh_2", "every program of 2 calls (15 methods incl. encap headers, label stacks) + 1 later call, next-hop builder", "quick"),
+          _c18("VfC18_client_3", "every sequence of 3 calls of AddEntry/ReplaceEntry/DeleteEntry (1-2 entries, optional own election id) / UpdateElectionID, in each redundancy mode, with/without initial id", "quick"),
+          _c18("VfC18_ipv4_3", "programs of 3 calls + 1, IPv4 builder", "thorough"),
+          _c18("VfC18_ipv6_2", "programs of 2 calls + 1, IPv6 builder", "thorough"),
+          _c18("VfC18_label_3", "programs of 3 calls + 1, MPLS builder", "thorough"),
+          _c18("VfC18_nhg_3", "programs of 3 calls + 1, group builder", "thorough"),
+          _c18("VfC18_nh_3", "programs of 3 calls + 1, next-hop builder", "thorough"),
+          _c18("VfC18_client_4", "sequences of 4 queueing calls", "thorough")],
+    assumptions=["proto.Clone is modelled as a deep copy and proto.Equal as typed structural equality of the message graph"],
+    level_text="Bounded symbolic execution over every program of L builder calls with symbolic arguments: the emitted message equals an independently built expected message, emitted messages are immune to later builder calls, ids and election-id stamping follow the documented rules.",
+    level_note="Trusted: go/ssa, gosym (proto.Clone/Equal stubs), z3.")
+
 NOT_APPLICABLE = {
     "C19": "whole compliance-suite runs over in-memory gRPC against wrapped servers in every order: a whole-program execution through gRPC, testing and reflection; no bounded symbolic encoding within reach (DESIGN.md §8)",
 }
